@@ -33,7 +33,9 @@ func snapString(x any) string {
 
 // simple is one (API, variant): build() returns the inputs to guard, and a function that runs the
 // call and returns the canonical value of the output. dirty=true must poison the object's scratch
-// buffers and pre-fill the output object with residue of a previous, larger use.
+// buffers and pre-fill the output object with residue of a previous, larger use. A row whose call
+// produces an output OBJECT exposes it with t.out(...) in build (caller-allocated output) or in run
+// (returned output): the objects exposed by the fresh run must not share storage with ins (indep.go).
 type simple struct {
 	api     string
 	variant string
@@ -43,16 +45,20 @@ type simple struct {
 
 func (t *T) runSimple(s simple) {
 	t.distinct(s.api, "fresh", "-", s.variant, true)
+	t.takeOuts()
 	ins, run := s.build(false)
 	var v0 string
 	o := t.guarded(s.api, s.pred, s.api+" fresh "+s.variant, ins, func() (err error) { v0, err = run(); return })
+	outs := t.takeOuts()
 	if !o.ok() {
 		return
 	}
+	t.independentAny(s.api, s.api+" fresh "+s.variant, outs, ins)
 	t.distinct(s.api, "hist-dirty", "-", s.variant, true)
 	_, run2 := s.build(true)
 	var v1 string
 	o2 := protect(func() (err error) { v1, err = run2(); return })
+	t.takeOuts()
 	t.c.Eval(1)
 	t.c.Count("outputs_compared", 1)
 	sig := strings.TrimRight("C09|"+s.api+"|history|"+s.pred, "|")
@@ -170,6 +176,7 @@ func runBGVEncoder(c *eng.Ctx, cfg pcfg) {
 						t.runSimple(simple{api: "bgv.Encoder.Encode", variant: variant, pred: kind, build: func(dirty bool) ([]named, func() (string, error)) {
 							vals, pt, ecd := mkVals(), mkPt(dirty), mkEcd(dirty)
 							meta := pt.MetaData.CopyNew()
+							t.out(pt)
 							return []named{{"values", &vals}}, func() (string, error) {
 								err := ecd.Encode(vals, pt)
 								if d := snap(meta).diff(snap(pt.MetaData)); d != "" {
@@ -223,6 +230,7 @@ func runBGVEncoder(c *eng.Ctx, cfg pcfg) {
 				if dirty {
 					newPoisoner(rnd, 1).poly(pQ)
 				}
+				t.out(&pQ)
 				return []named{{"pT", &pT}}, func() (string, error) {
 					ecd.RingT2Q(lvl, flag, pT, pQ)
 					return cvalString(canonPoly(rq, pQ)), nil
@@ -235,6 +243,7 @@ func runBGVEncoder(c *eng.Ctx, cfg pcfg) {
 				if dirty {
 					newPoisoner(rnd, 1).poly(pT)
 				}
+				t.out(&pT)
 				return []named{{"pQ", &pQ}}, func() (string, error) {
 					ecd.RingQ2T(lvl, flag, pQ, pT)
 					return cvalString(canonPoly(p.RingT(), pT)), nil
@@ -257,6 +266,7 @@ func runBGVEncoder(c *eng.Ctx, cfg pcfg) {
 					newPoisoner(rnd, 1).poly(pT)
 				}
 				sc := p.NewScale(3)
+				t.out(&pT)
 				return []named{{"values", &vals}, {"scale", &sc}}, func() (string, error) {
 					err := ecd.EncodeRingT(vals, sc, pT)
 					return cvalString(canonPoly(p.RingT(), pT)), err
@@ -289,6 +299,7 @@ func runBGVEncoder(c *eng.Ctx, cfg pcfg) {
 					}
 					md := &rlwe.MetaData{}
 					md.Scale, md.IsBatched, md.IsNTT, md.IsMontgomery, md.LogDimensions = p.NewScale(5), true, true, true, p.LogMaxDimensions()
+					t.out(&out)
 					return []named{{"values", &vals}, {"metadata", md}}, func() (string, error) {
 						err := ecd.Embed(vals, md, out)
 						return cvalString(canonPolyQP(&rqp, out)), err
@@ -457,6 +468,7 @@ func runCKKSEncoder(c *eng.Ctx, cfg pcfg, prec uint) {
 					t.runSimple(simple{api: "ckks.Encoder.Encode", variant: variant, pred: kind, build: func(dirty bool) ([]named, func() (string, error)) {
 						vals, pt, ecd := mkVals(kind, n), mkPt(dirty), mkEcd(dirty)
 						meta := pt.MetaData.CopyNew()
+						t.out(pt)
 						return []named{{"values", &vals}}, func() (string, error) {
 							err := ecd.Encode(vals, pt)
 							if d := snap(meta).diff(snap(pt.MetaData)); d != "" {
@@ -566,6 +578,7 @@ func runEncDec(c *eng.Ctx, cfg pcfg) {
 							ct.Scale = rlwe.NewScale(5)
 							ct.IsBatched = true
 						}
+						t.out(ct)
 						return []named{{"pt", pt}, {"key", key}}, func() (string, error) {
 							var err error
 							if zero {
@@ -599,6 +612,7 @@ func runEncDec(c *eng.Ctx, cfg pcfg) {
 							pt = rlwe.NewPlaintext(p, ptLvl)
 						}
 						ct := ct0.CopyNew()
+						t.out(pt)
 						return []named{{"ct", ct}, {"sk", e.sk}}, func() (string, error) {
 							dec.Decrypt(ct, pt)
 							return ptCanon(rq, pt), nil
@@ -635,6 +649,7 @@ func runEncDec(c *eng.Ctx, cfg pcfg) {
 			dirtyQP(&pk.Value)
 		}
 		sk := e.sk.CopyNew()
+		t.out(pk)
 		return []named{{"sk", sk}}, func() (string, error) { kg.GenPublicKey(sk, pk); return snapString(pk), nil }
 	}})
 	t.runSimple(simple{api: "rlwe.KeyGenerator.GenRelinearizationKey", variant: "-", build: func(dirty bool) ([]named, func() (string, error)) {
@@ -644,6 +659,7 @@ func runEncDec(c *eng.Ctx, cfg pcfg) {
 			dirtyQP(&rlk.GadgetCiphertext.Value)
 		}
 		sk := e.sk.CopyNew()
+		t.out(rlk)
 		return []named{{"sk", sk}}, func() (string, error) { kg.GenRelinearizationKey(sk, rlk); return snapString(rlk), nil }
 	}})
 	t.runSimple(simple{api: "rlwe.KeyGenerator.GenGaloisKey", variant: "-", build: func(dirty bool) ([]named, func() (string, error)) {
@@ -654,6 +670,7 @@ func runEncDec(c *eng.Ctx, cfg pcfg) {
 			gk.GaloisElement, gk.NthRoot = 12345, 7
 		}
 		sk := e.sk.CopyNew()
+		t.out(gk)
 		return []named{{"sk", sk}}, func() (string, error) { kg.GenGaloisKey(e.galEl, sk, gk); return snapString(gk), nil }
 	}})
 	t.runSimple(simple{api: "rlwe.KeyGenerator.GenEvaluationKey", variant: "-", build: func(dirty bool) ([]named, func() (string, error)) {
@@ -663,6 +680,7 @@ func runEncDec(c *eng.Ctx, cfg pcfg) {
 			dirtyQP(&evk.GadgetCiphertext.Value)
 		}
 		sk, sk2 := e.sk.CopyNew(), e.sk2.CopyNew()
+		t.out(evk)
 		return []named{{"skIn", sk}, {"skOut", sk2}}, func() (string, error) { kg.GenEvaluationKey(sk, sk2, evk); return snapString(evk), nil }
 	}})
 	t.runSimple(simple{api: "rlwe.KeyGenerator.GenEvaluationKey", variant: "skIn=skOut", pred: "skIn=skOut", build: func(dirty bool) ([]named, func() (string, error)) {
@@ -675,6 +693,7 @@ func runEncDec(c *eng.Ctx, cfg pcfg) {
 		} else {
 			sk2 = e.sk.CopyNew()
 		}
+		t.out(evk)
 		return []named{{"skIn", sk}}, func() (string, error) { kg.GenEvaluationKey(sk, sk2, evk); return snapString(evk), nil }
 	}})
 }
@@ -763,6 +782,7 @@ func runEncDec2(c *eng.Ctx, cfg pcfg) {
 					if err != nil {
 						return "", err
 					}
+					t.out(ct)
 					return ctString(rq, ct), nil
 				}
 			})
@@ -778,7 +798,11 @@ func runEncDec2(c *eng.Ctx, cfg pcfg) {
 					ct.Resize(2, lvl)
 					return nil, func() (string, error) { err := enc.EncryptZero(ct); return ctString(rq, ct), err }
 				}
-				return []named{{"key", keyOf(keyKind)}}, func() (string, error) { return ctString(rq, enc.EncryptZeroNew(lvl)), nil }
+				return []named{{"key", keyOf(keyKind)}}, func() (string, error) {
+					ct := enc.EncryptZeroNew(lvl)
+					t.out(ct)
+					return ctString(rq, ct), nil
+				}
 			})
 			// WithPRNG: two encryptors given identically keyed PRNGs produce the same uniform part, whatever they did before
 			if keyKind == "sk" {
@@ -795,6 +819,7 @@ func runEncDec2(c *eng.Ctx, cfg pcfg) {
 						if err != nil {
 							return "", err
 						}
+						t.out(ct)
 						return ctString(rq, ct), nil
 					}
 				})
@@ -821,7 +846,11 @@ func runEncDec2(c *eng.Ctx, cfg pcfg) {
 				pt := rlwe.NewPlaintext(p, v.lvl)
 				return nil, func() (string, error) { dec.Decrypt(ct, pt); return ptCanon(rq, pt), nil }
 			}
-			return []named{{"ct", ct}, {"sk", e.sk}}, func() (string, error) { return ptCanon(rq, dec.DecryptNew(ct)), nil }
+			return []named{{"ct", ct}, {"sk", e.sk}}, func() (string, error) {
+				pt := dec.DecryptNew(ct)
+				t.out(pt)
+				return ptCanon(rq, pt), nil
+			}
 		})
 	}
 	// ---- key generation: New variants and the slice forms
@@ -841,7 +870,7 @@ func runEncDec2(c *eng.Ctx, cfg pcfg) {
 			pk := rlwe.NewPublicKey(p)
 			return nil, func() (string, error) { kg.GenPublicKey(sk, pk); return snapString(pk), nil }
 		}
-		return []named{{"sk", sk}}, func() (string, error) { return snapString(kg.GenPublicKeyNew(sk)), nil }
+		return []named{{"sk", sk}}, func() (string, error) { k := kg.GenPublicKeyNew(sk); t.out(k); return snapString(k), nil }
 	})
 	t.runPatterns("rlwe.KeyGenerator.GenRelinearizationKeyNew", "-", "", []string{"new-vs-inplace"}, func(pat string) ([]named, func() (string, error)) {
 		kg := mkKgen("rlk")
@@ -850,7 +879,11 @@ func runEncDec2(c *eng.Ctx, cfg pcfg) {
 			k := rlwe.NewRelinearizationKey(p, e.evkPs...)
 			return nil, func() (string, error) { kg.GenRelinearizationKey(sk, k); return snapString(k), nil }
 		}
-		return []named{{"sk", sk}}, func() (string, error) { return snapString(kg.GenRelinearizationKeyNew(sk, e.evkPs...)), nil }
+		return []named{{"sk", sk}}, func() (string, error) {
+			k := kg.GenRelinearizationKeyNew(sk, e.evkPs...)
+			t.out(k)
+			return snapString(k), nil
+		}
 	})
 	t.runPatterns("rlwe.KeyGenerator.GenEvaluationKeyNew", "-", "", []string{"new-vs-inplace", "skIn=skOut"}, func(pat string) ([]named, func() (string, error)) {
 		kg := mkKgen("evk")
@@ -860,9 +893,17 @@ func runEncDec2(c *eng.Ctx, cfg pcfg) {
 			k := rlwe.NewEvaluationKey(p, e.evkPs...)
 			return nil, func() (string, error) { kg.GenEvaluationKey(sk, sk2, k); return snapString(k), nil }
 		case "skIn=skOut":
-			return []named{{"skIn", sk}}, func() (string, error) { return snapString(kg.GenEvaluationKeyNew(sk, sk, e.evkPs...)), nil }
+			return []named{{"skIn", sk}}, func() (string, error) {
+				k := kg.GenEvaluationKeyNew(sk, sk, e.evkPs...)
+				t.out(k)
+				return snapString(k), nil
+			}
 		}
-		return []named{{"skIn", sk}, {"skOut", sk2}}, func() (string, error) { return snapString(kg.GenEvaluationKeyNew(sk, sk2, e.evkPs...)), nil }
+		return []named{{"skIn", sk}, {"skOut", sk2}}, func() (string, error) {
+			k := kg.GenEvaluationKeyNew(sk, sk2, e.evkPs...)
+			t.out(k)
+			return snapString(k), nil
+		}
 	})
 	galEls0 := []uint64{e.galEl, p.GaloisElement(1), p.GaloisElement(2)}
 	gksString := func(gks []*rlwe.GaloisKey) string {
@@ -896,6 +937,10 @@ func runEncDec2(c *eng.Ctx, cfg pcfg) {
 				return gksString(gks), nil
 			}
 		}
-		return []named{{"galEls", &galEls}, {"sk", sk}}, func() (string, error) { return gksString(kg.GenGaloisKeysNew(galEls, sk, e.evkPs...)), nil }
+		return []named{{"galEls", &galEls}, {"sk", sk}}, func() (string, error) {
+			gks := kg.GenGaloisKeysNew(galEls, sk, e.evkPs...)
+			t.out(gks)
+			return gksString(gks), nil
+		}
 	})
 }
